@@ -402,6 +402,34 @@ def values_tie(ctx, count):
                           f"(dataset #{i} of the run)", {"input": {**meta, "x": [float(t) for t in x],
                                                                    "y": [float(t) for t in y], "fit": [float(t) for t in fit],
                                                                    "dataset_number": i}})
+        # "features depend only on the approach segment, its fit and the fitted contact point": twins of the dataset
+        # that differ in something else - the geometrical correction factor the fit was made with, or the name of
+        # the abscissa column (with an unrelated 'tip position' column next to it) - have the same features
+        twins = []
+        t1 = Stub(stub.cols["tip position"], stub.cols["force"], stub.cols["fit"], stub.cols["segment"], cp)
+        t1.fit_properties["gcf_k"] = rng.choice([0.5, 0.3183098861837907, 2.0])
+        twins.append(("gcf_k=%r" % t1.fit_properties["gcf_k"], t1))
+        t2 = Stub(stub.cols["tip position"] * 3.0 + 1.0, stub.cols["force"], stub.cols["fit"], stub.cols["segment"], cp)
+        t2.cols["height (measured)"] = stub.cols["tip position"]
+        t2.fit_properties["x_axis"] = "height (measured)"
+        twins.append(("x_axis='height (measured)' (+ unrelated tip position column)", t2))
+        with warnings.catch_warnings(), np.errstate(all="ignore"):
+            warnings.simplefilter("ignore")
+            try:
+                base_v, base_n = IndentationFeatures.compute_features(stub, ret_names=True)
+            except BaseException:  # noqa
+                base_v = None
+            for tlabel, tw in (twins if base_v is not None else []):
+                try:
+                    tv, tn = IndentationFeatures.compute_features(tw, ret_names=True)
+                    diff = [(n_, a_, b_) for n_, a_, b_ in zip(base_n, base_v, tv) if not same(a_, b_, exact=True)]
+                except BaseException as e:  # noqa
+                    diff = [("raises", repr(e), "")]
+                if diff:
+                    ctx.violation(f"depends-on-other-setting:{diff[0][0]}", f"the same approach segment, fit and contact "
+                                  f"point with {tlabel}: {diff[0][0]} = {diff[0][2]!r} instead of {diff[0][1]!r}",
+                                  {"input": {**meta, "twin": tlabel, "x": [float(t) for t in x], "y": [float(t) for t in y],
+                                             "fit": [float(t) for t in fit]}})
         for name in MODELLED:
             with warnings.catch_warnings(), np.errstate(all="ignore"):
                 warnings.simplefilter("ignore")
